@@ -70,6 +70,7 @@ func Build(state *core.BuildState, target *core.BuildTarget, remote bool) {
 			return
 		}
 		state.LogBuildError(target.Label, core.TargetBuildFailed, err, "Build failed: %s", err)
+		verifOp(target, "fail-remove-outputs", "")
 		if err := RemoveOutputs(target); err != nil {
 			log.Errorf("Failed to remove outputs for %s: %s", target.Label, err)
 		}
@@ -278,6 +279,7 @@ func buildTarget(state *core.BuildState, target *core.BuildTarget, runRemotely b
 			return nil
 		}
 
+		verifOp(target, "prepare", target.TmpDir())
 		if err := prepareDirectories(target); err != nil {
 			return fmt.Errorf("Error preparing directories for %s: %s", target.Label, err)
 		}
@@ -320,6 +322,7 @@ func buildTarget(state *core.BuildState, target *core.BuildTarget, runRemotely b
 		}
 
 		state.LogBuildResult(target, core.TargetBuilding, target.BuildingDescription)
+		verifOp(target, "run-command", target.TmpDir())
 		metadata, err = build(state, target, cacheKey)
 		if err != nil {
 			return err
@@ -375,6 +378,7 @@ func buildTarget(state *core.BuildState, target *core.BuildTarget, runRemotely b
 		return fmt.Errorf("failed to store target build metadata for %s: %w", target.Label, err)
 	}
 
+	verifOp(target, "md-done", targetBuildMetadataFileName(target))
 	state.LogBuildResult(target, core.TargetBuilding, "Collecting outputs...")
 	outs, outputsChanged, err := moveOutputs(state, target)
 	if err != nil {
@@ -390,6 +394,7 @@ func buildTarget(state *core.BuildState, target *core.BuildTarget, runRemotely b
 	}
 	buildLinks(state, target)
 	if state.Cache != nil {
+		verifOp(target, "cache-store", "")
 		state.LogBuildResult(target, core.TargetBuilding, "Storing...")
 		newCacheKey := mustShortTargetHash(state, target)
 
@@ -405,6 +410,7 @@ func buildTarget(state *core.BuildState, target *core.BuildTarget, runRemotely b
 		}
 		storeInCache(state.Cache, target, newCacheKey, outs)
 	}
+	verifOp(target, "finish", "")
 	// Clean up the temporary directory once it's done.
 	if state.CleanWorkdirs {
 		if err := fs.RemoveAll(target.TmpDir()); err != nil {
@@ -470,12 +476,14 @@ func retrieveArtifacts(state *core.BuildState, target *core.BuildTarget, oldOutp
 
 	cacheKey := mustShortTargetHash(state, target)
 
+	verifOp(target, "cache-retrieve", "")
 	if md := retrieveFromCache(state.Cache, target, cacheKey, target.Outputs()); md != nil {
 		// Retrieve additional optional outputs from metadata
 		if len(md.OptionalOutputs) > 0 {
 			state.Cache.Retrieve(target, cacheKey, md.OptionalOutputs)
 		}
 
+		verifOp(target, "cache-retrieved", "")
 		log.Debug("Retrieved artifacts for %s from cache", target.Label)
 		checkLicences(state, target)
 		newOutputHash, err := calculateAndCheckRuleHash(state, target)
@@ -749,9 +757,11 @@ func moveOutput(state *core.BuildState, target *core.BuildTarget, tmpOutput, rea
 			return true, err
 		} else if bytes.Equal(oldHash, newHash) {
 			// We already have the same file in the current location. Don't bother moving it.
+			verifOp(target, "out-keep", realOutput)
 			log.Debug("Checking %s vs. %s, hashes match", tmpOutput, realOutput)
 			return false, nil
 		}
+		verifOp(target, "out-remove", realOutput)
 		if err := fs.RemoveAll(realOutput); err != nil {
 			return true, err
 		}
@@ -760,6 +770,7 @@ func moveOutput(state *core.BuildState, target *core.BuildTarget, tmpOutput, rea
 	// Check if we need a directory for this output.
 	dir := filepath.Dir(realOutput)
 	if !core.PathExists(dir) {
+		verifOp(target, "out-mkdir", dir)
 		if err := os.MkdirAll(dir, core.DirPermissions); err != nil {
 			return true, err
 		}
@@ -767,10 +778,12 @@ func moveOutput(state *core.BuildState, target *core.BuildTarget, tmpOutput, rea
 	// If the output file is in plz-out/tmp we can just move it to save time, otherwise we need
 	// to copy so we don't move files from other directories.
 	if strings.HasPrefix(tmpOutput, target.TmpDir()) {
+		verifOp(target, "out-rename", realOutput)
 		if err := os.Rename(tmpOutput, realOutput); err != nil {
 			return true, err
 		}
 	} else {
+		verifOp(target, "out-copy", realOutput)
 		if err := fs.RecursiveCopy(tmpOutput, realOutput, target.OutMode()); err != nil {
 			return true, err
 		}
